@@ -121,11 +121,12 @@ func emitGuess(id string, content []byte, l *layout, expect string) {
 		}
 	}
 	// ... and with ONE options value reused for successive scans, as a long-running caller does
-	if snap != "OPTS-MODIFIED" && !strings.HasPrefix(snap, "PANIC") {
+	if !strings.HasPrefix(snap, "PANIC") {
 		shared := &stack.Opts{LocalGOROOT: l.localGoroot, LocalGOPATHs: append([]string{}, l.localGopaths...), GuessPaths: true}
+		s1, g1, p1, m1 := runGuessOpts(content, shared)
 		for i := 0; i < 3; i++ {
 			s2, g2, p2, m2 := runGuessOpts(content, shared)
-			if s2 != snap || g2 != goroot || p2 != gopaths || m2 != gomods {
+			if s2 != s1 || g2 != g1 || p2 != p1 || m2 != m1 {
 				det = "0"
 			}
 		}
